@@ -229,6 +229,57 @@ func checkDelivery(r *rand.Rand, in []byte) (class string, v *verdict) {
 	return class, nil
 }
 
+// checkIndependence: a decoded pointer is a value — decoding other texts afterwards (for instance a
+// non-canonical spelling of the same oid and size, as a tree scan over many blobs does) must not change
+// what an earlier decode returned.
+func checkIndependence(r *rand.Rand, p ptrspec.Pointer) (class string, v *verdict) {
+	canon := ptrspec.Canonical(p)
+	variants := []string{
+		strings.TrimSuffix(canon, "\n"),         // no final newline
+		strings.ReplaceAll(canon, "\n", "\r\n"), // CRLF
+		canon + "\n",                            // extra blank line
+		strings.Replace(canon, "https://git-lfs.github.com/spec/v1", "https://hawser.github.com/spec/v1", 1), // legacy version URL
+	}
+	alt := variants[r.Intn(len(variants))]
+	first, second := canon, alt
+	order := "canonical-then-variant"
+	if r.Intn(2) == 0 {
+		first, second = alt, canon
+		order = "variant-then-canonical"
+	}
+	class = "independence/" + order
+	p1, err1, pan := safeDecode([]byte(first))
+	if pan != nil {
+		return class, &verdict{"decoder-panic", fmt.Sprint(pan)}
+	}
+	if err1 != nil || p1 == nil {
+		return class + "/first-rejected", nil
+	}
+	before := *p1
+	beforeEnc := p1.Encoded()
+	p2, err2, pan := safeDecode([]byte(second))
+	if pan != nil {
+		return class, &verdict{"decoder-panic", fmt.Sprint(pan)}
+	}
+	if p1.Canonical != before.Canonical || p1.Oid != before.Oid || p1.Size != before.Size || p1.Encoded() != beforeEnc {
+		return class, &verdict{"earlier-result-changed-by-later-decode", fmt.Sprintf("first decode (%q...) returned Canonical=%v; after decoding a second text of the same object it reads Canonical=%v", sbxTrunc(first, 40), before.Canonical, p1.Canonical)}
+	}
+	if err2 == nil && p2 != nil {
+		want := second == ptrspec.Canonical(fromLfs(p2))
+		if p2.Canonical != want {
+			return class, &verdict{"canonical-flag-wrong", fmt.Sprintf("second decode: Canonical=%v, input==canonical is %v", p2.Canonical, want)}
+		}
+	}
+	return class, nil
+}
+
+func sbxTrunc(s string, n int) string {
+	if len(s) > n {
+		return s[:n]
+	}
+	return s
+}
+
 // checkFileDelivery: the same verdict when the bytes are handed over as a named file — a regular file,
 // a symbolic link to it, or a FIFO (whose stat size says nothing about its content).
 func checkFileDelivery(r *rand.Rand, dir string, seq int, in []byte) (class string, v *verdict) {
@@ -544,7 +595,7 @@ type viol struct {
 
 func main() {
 	run := evid.New("C07", "exploration")
-	run.Rule = "seeded generator: (a) valid pointers (random oid, size edge values up to 2^63-1, 0-10 extensions with distinct ascending priorities) through Encoded()/Encode()/DecodePointer round trip; (b) 1- and 2-edit mutants of canonical pointers (30 mutation operators) and (c) unstructured/dictionary random byte strings <= 2 kB through DecodePointer; oracle = ptrspec canonical formatter + post-conditions; (d) delivery: the same inputs through readers that chunk (bytewise, empty reads, random, two chunks) must give the whole-buffer verdict, and through readers that fail with a non-EOF error after k bytes must never be accepted as anything the complete input does not decode to; and through lfs.DecodePointerFromFile on a regular file, a symbolic link and a FIFO. A class is (generator kind, mutation operator(s), accepted/rejected); distinct_nontrivial counts classes observed."
+	run.Rule = "seeded generator: (a) valid pointers (random oid, size edge values up to 2^63-1, 0-10 extensions with distinct ascending priorities) through Encoded()/Encode()/DecodePointer round trip; (b) 1- and 2-edit mutants of canonical pointers (30 mutation operators) and (c) unstructured/dictionary random byte strings <= 2 kB through DecodePointer; oracle = ptrspec canonical formatter + post-conditions; (d) delivery: the same inputs through readers that chunk (bytewise, empty reads, random, two chunks) must give the whole-buffer verdict, and through readers that fail with a non-EOF error after k bytes must never be accepted as anything the complete input does not decode to; and through lfs.DecodePointerFromFile on a regular file, a symbolic link and a FIFO; (e) independence: decoding a second spelling of the same object (no final newline, CRLF, extra blank line, legacy URL; either order) must not change what the first decode returned. A class is (generator kind, mutation operator(s), accepted/rejected); distinct_nontrivial counts classes observed."
 	run.Assumptions = []string{"valid pointer = size>0, extension priorities distinct and ascending, encoded length < 1024 (docs/spec.md)", "ptrspec (harness/ptrspec) is the specification of the canonical form", "DecodePointer is the decoder under test; size-checked wrappers (FromFile/FromBlob) only restrict its domain"}
 	sbxTmp, _ := os.MkdirTemp("", "verif-c07-")
 	defer os.RemoveAll(sbxTmp)
@@ -589,6 +640,13 @@ func main() {
 				switch i % 10 {
 				case 0, 1: // valid pointer round trip
 					p := genPointer(r)
+					if i%20 == 0 && len(ptrspec.Canonical(p)) < 1000 {
+						ic, iv := checkIndependence(r, p)
+						lc[ic]++
+						if iv != nil && len(lv) < 50 {
+							lv = append(lv, viol{*iv, ic, ptrspec.Canonical(p)})
+						}
+					}
 					v := checkRoundTrip(p)
 					note(fmt.Sprintf("valid/exts=%d", len(p.Exts)), ptrspec.Canonical(p), v, v == nil)
 					if r.Intn(50) == 0 { // empty pointer
